@@ -273,7 +273,7 @@ def gen_case(rng, tier, big=False):
     knots = []
     for a, o in zip(axes, orders):
         nk = a + o + 1
-        style = rng.choice(["uniform", "random", "random", "bits", "extreme"])
+        style = rng.choice(["uniform", "random", "random", "bits", "extreme", "gulf"])
         if style == "uniform":
             ks = [dbits(float(i) * 0.25 - 1.0) for i in range(nk)]
         elif style == "random":
@@ -283,6 +283,12 @@ def gen_case(rng, tier, big=False):
         elif style == "bits":
             ks = sorted(dbits((rng.unit() - 0.5) * 10 ** rng.rint(-30, 30)) for _ in range(nk))
             ks = [dbits(v) for v in sorted(dfrom(w) for w in ks)]
+        elif style == "gulf":
+            # finite and increasing, but two NEIGHBOURING knots lie further apart than DBL_MAX (their difference overflows)
+            j = rng.rint(1, nk - 1)
+            lo = sorted(-(1.0e308 + 7e307 * rng.unit()) for _ in range(j))
+            hi = sorted(1.0e308 + 7e307 * rng.unit() for _ in range(nk - j))
+            ks = [dbits(v) for v in lo + hi]
         else:
             # extreme but admissible knot values: huge, denormal, signed zeros, repeated — finite and non-decreasing
             pool = [-1.7e308, -1e300, -1.0, -5e-324, -0.0, 0.0, 5e-324, 2.2e-308, 1.0, 1e300, 1.7e308]
